@@ -1,5 +1,4 @@
 SPECIFICATION TraceSpec
 CONSTRAINT HW
 POSTCONDITION Accepted
-INVARIANTS UniqueInEveryCommittedState FkIntegrityInEveryCommittedState
 CHECK_DEADLOCK FALSE
